@@ -87,6 +87,12 @@ pub mod figment;
 pub(crate) mod ring_reader;
 mod wrapping;
 mod zmij_format;
+
+#[cfg(serde_saphyr_verif)]
+#[doc(hidden)]
+#[path = "verif_hooks.rs"]
+pub mod __verif;
+
 // ---------------- Serialization (public API) ----------------
 
 /// Serialize a value to a YAML `String`.
